@@ -157,7 +157,6 @@ impl Oplog {
         }
     }
     pub fn clean_op_log_metadata_files() {
-        remove_invalidate_oplog_file();
         remove_op_log_file();
         if let Ok(entries) = read_dir(get_op_log_dir_name()) {
             for entry in entries {
@@ -176,6 +175,9 @@ impl Oplog {
                 }
             }
         }
+        // The flag goes last: a missing flag file reads as valid, if the process dies in between
+        // the next start must still find the log marked invalid
+        remove_invalidate_oplog_file();
     }
     pub fn get_op_log_file_name() -> String {
         format!("{dir}/{sufix}", dir = get_dir_name(), sufix = OP_LOG_FILE)
